@@ -1896,7 +1896,17 @@ def spec_agg_contrib(eng, node, st, fi):
     return [(s, SInt(eng.agg_contrib(s, node.args[0].value, o.t)))]
 
 
+def spec_sk(eng, node, st, fi):
+    """sk("name", i): application of a Skolem function Int -> Int that is fresh for each use of the (assumed) contract: the
+    witness of an existential the contract asserts"""
+    (s, i), = eng.ev(node.args[1], st, fi)
+    scope = getattr(eng, "skolem_scope", 0)
+    f = z3.Function(f"sk_{node.args[0].value}!{scope}", sym.IntS, sym.IntS)
+    return [(s, SInt(f(i.t)))]
+
+
 SPEC_FUNCS = {
+    "sk": spec_sk,
     "agg": spec_agg,
     "contrib": spec_agg_contrib,
     "ev_name": spec_ev_name,
